@@ -165,3 +165,74 @@ def x02(tier: str) -> int:
     for r in recs[3:6]:
         v.sample({'op': r.get('op'), 'res': r.get('res'), 'reqs': r.get('reqs')})
     return v.finish()
+
+
+def x03(tier: str) -> int:
+    """isolation and crash recovery of the store (an extension of C06's fault model)"""
+    from harness.check_store import (make_snapshots, count_faults, check_universe_file, number)
+    v = Verdict('X03', tier)
+    check_universe_file()
+    thorough = tier == 'thorough'
+    v.assumptions = [
+        'not one of the listed properties: what another process can do to a call in flight - read '
+        'through a connection of its own at every progress callback, and kill the writer at every '
+        'progress callback (os._exit in a child process: no handler, no rollback, no close)',
+        'a reader refused by SQLite ("database is locked") counts as having seen nothing']
+    v.add_model('MC_StoreConc (MC_Store + Read and Crash at every point of every transaction)',
+                tlc_model('MC_StoreConc'))
+    snaps = make_snapshots({
+        'S0': [],
+        'S1': [['add', 'Ra1', 'xml']],
+        'S2': [['add', 'Ra1', 'xml'], ['add', 'Rx', 'xml'], ['add', 'Ry', 'xml'],
+               ['add', 'Rr', 'xml'], ['add', 'Ra2', 'xml'], ['ili', 'f1', 'xml']],
+    })
+    scen = [
+        {'snap': 'S0', 'op': ['add', 'Rar', 'xml'], 'then': ['add', 'Rar', 'xml']},
+        {'snap': 'S1', 'op': ['add', 'Rx', 'gz'], 'then': ['add', 'Rx', 'xml']},
+        {'snap': 'S2', 'op': ['remove', '*'], 'then': ['add', 'Ru', 'xml']},
+        {'snap': 'S2', 'op': ['remove', 'a:*'], 'then': ['remove', 'r']},
+        {'snap': 'S1', 'op': ['ili', 'f1', 'xml'], 'then': ['ili', 'f2', 'xml']},
+        {'snap': 'S1', 'op': ['addbad', 'Rx', 'sense_synset', 0], 'then': ['add', 'Rx', 'xml']},
+    ]
+    if thorough:
+        scen += [
+            {'snap': 'S0', 'op': ['add', 'Rua', 'tarpkg.xz'], 'then': ['add', 'Rua', 'xml']},
+            {'snap': 'S1', 'op': ['add', 'Rar', 'mem'], 'then': ['add', 'Rr', 'xml']},
+            {'snap': 'S2', 'op': ['remove', 'y r a'], 'then': ['add', 'Ry', 'xml']},
+            {'snap': 'S2', 'op': ['add', 'Ru', 'pkg'], 'then': ['add', 'Ru', 'xml']},
+            {'snap': 'S0', 'op': ['addcoll', ['Ra1', 'Ru'], 'coll'], 'then': ['add', 'Ra1', 'xml']},
+        ]
+    counts = count_faults(snaps, scen)
+    jobs = []
+    for s, (cb, _) in zip(scen, counts):
+        jobs.append({'mode': 'iso', 'snap': snaps[s['snap']], 'op': s['op']})
+        if s['op'][0] == 'addcoll':
+            continue      # (collections: several transactions in an unspecified order)
+        step = 1 if thorough or cb <= 40 else 2
+        for k in range(1, cb + 1, step):
+            jobs.append({'mode': 'crash', 'snap': snaps[s['snap']], 'op': s['op'], 'k': k,
+                         'then': s['then']})
+    res = run_driver('drv_store.py', jobs, timeout=3000)
+    recs = []
+    for j, r in zip(jobs, res):
+        if r is None or 'recs' not in r:
+            recs.append({'timeout': True, 'op': j['op']})
+            continue
+        recs.extend(r['recs'])
+    number(recs)
+    j = tlc_judge('Judge_Store', recs, cfg='Judge.cfg', shards=NCPU)
+    crashed = sum(1 for r in recs if r.get('ret') == 'exc:crash')
+    nviews = sum(len(r.get('views', [])) for r in recs)
+    v.add_judgement('Judge_Store (readers and crashes)', j, {r['id']: r for r in recs},
+                    nontrivial=crashed)
+    v.cov['crash_points'] = crashed
+    v.cov['reader_views'] = nviews
+    v.cov['callbacks_watched'] = sum(r.get('callbacks', 0) for r in recs)
+    v.cov['rule'] = ('for every scenario (state, operation): one run watched by a second connection at '
+                     'every progress callback, and one child process killed at callback k for every k '
+                     '(every second k in the quick tier when K > 40), the database then reopened and a '
+                     'valid operation applied; non-trivial = the child really died inside the call')
+    for r in recs[1:3]:
+        v.sample({'op': r['op'], 'ret': r.get('ret'), 'fault': r.get('fault'),
+                  'unchanged': r['pre']['rawsha'] == r['post']['rawsha']})
+    return v.finish()
